@@ -62,6 +62,19 @@ static int gen_variants(int li, unsigned idx, struct var *V) {
                 ADD(p, 1); break;
             }
         }
+        if (!L->accents) {  /* languages without accent folding: any non-ASCII character makes the token a different word */
+            for (int i = 0; i < n; i++) if (strchr("aeiouy", C[i].base[0])) {
+                char p[128] = ""; for (int j = 0; j < n; j++) { strcat(p, C[j].base); if (j == i) strcat(p, "\xCC\x81"); }
+                ADD(p, 0);
+                char c[128]; u_nfc(p, c, sizeof c - 1); if (strcmp(c, p)) ADD(c, 0);
+                /* the same inside a 4+ letter prefix */
+                if (i < 4 && n > 4) { char q[128] = ""; for (int j = 0; j < 4 || j <= i; j++) { strcat(q, C[j].base); if (j == i) strcat(q, "\xCC\x81"); } ADD(q, 0); }
+                break;
+            }
+            snprintf(t, sizeof t, "%s\xE2\x82\xAC", full); ADD(t, 0);                       /* word + euro sign */
+            snprintf(t, sizeof t, "%s\xCC\x81", full); ADD(t, 0);                             /* word + combining accent */
+            if (n >= 3) { char p[128] = ""; for (int j = 0; j < n; j++) { if (j == 2) strcat(p, "\xE6\x97\xA5"); strcat(p, C[j].base); } ADD(p, 0); }   /* CJK character between letters */
+        }
         /* upper case is not folded */
         { char u[128]; strcpy(u, full); if (u[0] >= 'a' && u[0] <= 'z') { u[0] -= 32; ADD(u, 0); } }
     } else {
